@@ -3,7 +3,7 @@
 import glob, json, os, re
 ROOT = os.path.dirname(os.path.dirname(os.path.abspath(__file__)))
 rows = []
-for f in sorted(glob.glob(os.path.join(ROOT, 'seeded', '*', 'meta.json'))):
+for f in sorted(glob.glob(os.path.join(ROOT, 'seeded', 'C*', 'meta.json'))):
     m = json.load(open(f))
     res = m.get('checks_run', {}).get('results', {})
     det = [p for p, r in sorted(res.items()) if r.get('exit_code') == 1]
